@@ -26,8 +26,28 @@ def run_one(pid, tier, root, seed, quiet=False):
                      source_digest=P.digest)
         if len(P.modules) < 20:
             raise AnalysisError(f'only {len(P.modules)} modules parsed under {root}/ombott (23 on the pinned tree)')
-        if tier == 'thorough' and hasattr(mod, 'thorough'):
-            mod.thorough(P, R)
+        if tier == 'thorough' and not os.environ.get('SA_NO_BATTERY'):
+            if hasattr(mod, 'thorough'):
+                mod.thorough(P, R)
+            # self-validation of the rules of this property: only meaningful when the tree itself is clean
+            if not any(o['verdict'] == 'violated' and o['key'] not in {e['key'] for e in R.load_known() if e.get('kind') == 'known'} for o in R.obligations):
+                from . import battery
+                res = battery.run_battery(pid, root)
+                R.battery = dict(
+                    benign_twins=[dict(kind=t['kind'], exit=t['rc']) for t in res['twins']],
+                    mutants=[dict(name=m['name'], exit=m['rc'], first_report=(m['lines'] or [''])[0][:200]) for m in res['mutants']],
+                    mutants_total=len(res['mutants']), mutants_detected=sum(1 for m in res['mutants'] if m['rc'] == 1),
+                    twins_total=len(res['twins']), twins_silent=sum(1 for t in res['twins'] if t['rc'] == 0),
+                    skipped_patches_not_applicable_to_this_tree=res['skipped'])
+                problems = []
+                if res['noisy']:
+                    problems.append(f'rules fire on behaviour-preserving twins {res["noisy"]}')
+                if res['undecided']:
+                    problems.append(f'rules cannot decide on behaviour-preserving twins {res["undecided"]}')
+                if res['missed']:
+                    problems.append(f'seeded mutants not reported {res["missed"]}')
+                if problems:
+                    raise AnalysisError('self-validation battery: ' + '; '.join(problems))
     except AnalysisError as e:
         err = str(e)
     except Exception as e:  # a bug in the analysis is never a verdict about the code
